@@ -275,16 +275,26 @@ def build_cases(tier, rng):
     return cases
 
 
+def reply_cases():
+    """Only the faults that are malformed *replies* (the last sentence of C11: in the compiler a malformed generator reply becomes a
+    diagnostic), alone and after a healthy generator. Used by C11's compiler-level phase."""
+    cases = []
+    for f in sorted(x for x in fault_catalogue() if x.startswith("reply-")):
+        cases.append(([f], "cwd", False))
+        cases.append((["ok", f], "given", False))
+    return cases
+
+
 def run_shard(ctx, spec):
-    _, idx, n = spec
+    kind, idx, n = spec
     run_case.schema = wire.parse_schema(os.path.join(build.repo(), "slice", "Compiler"))
-    cases = build_cases(ctx.tier, ctx.rng("cases"))
+    cases = reply_cases() if kind == "replies" else build_cases(ctx.tier, ctx.rng("cases"))
     root = os.path.join(ctx.tmpdir(), "s%d" % idx)
     os.makedirs(root)
     for i, (gens, mode, big) in enumerate(cases):
         if i % n == idx:
             run_case(ctx, root, i, gens, mode, big)
-    if idx == 0:
+    if idx == 0 and kind != "replies":
         ctx.sample({"generators": ["reply-trunc-17", "ok"], "output": "given-identical",
                     "reply_hex": VALID_REPLY[:17].hex(), "valid_reply_hex": VALID_REPLY.hex()}, limit=1)
         ctx.extra["fault_catalogue"] = sorted(set(re.sub(r"-\d+$", "-<n>", k) for k in fault_catalogue()))
